@@ -3,6 +3,7 @@ import LhasaV.Props.C17
 import LhasaV.Lemmas.CrcBurst
 import LhasaV.Lemmas.MacProps
 import LhasaV.Lemmas.MessagesProps
+import LhasaV.Lemmas.ToolNoFaultT
 /-!
 # C07 — a member is reported good only if its bytes match the recorded length and CRC-16
 -/
@@ -125,5 +126,14 @@ theorem handled_members_selected (cmd : Messages.Cmd) (archive : Array UInt8) (o
 theorem progress_bar_width (n : Nat) :
     (n + (1 + n / Messages.maxProgressLen) - 1) / (1 + n / Messages.maxProgressLen) ≤ Messages.maxProgressLen :=
   MessagesProps.bar_width_le n
+
+/-- **Exit status, closed form** (no fault can occur: C08): 255 after `exit(-1)`, else 0 if every
+handled member was good, else 1 -/
+theorem exit_status_cases (cmd : Messages.Cmd) (archive : Array UInt8) (o : Extract.Opts) (fs : Fs.St)
+    (answers : Bytes) :
+    Messages.exitStatus (Messages.run cmd archive o fs answers) =
+      if (Messages.run cmd archive o fs answers).aborted then 255
+      else if (Messages.run cmd archive o fs answers).trace.all (·.2) then 0 else 1 :=
+  ToolNoFault.exit_status_cases cmd archive o fs answers
 
 end LhasaV.Props.C07
